@@ -111,7 +111,18 @@ struct EntScript {
   std::vector<int> asked_failed;
 };
 static EntScript ES;
-static std::string ent_bytes(uint64_t seed, int callidx, size_t n) { return prbytes(seed * 1000003ULL + (uint64_t)callidx * 7919ULL + 1, n); }
+// what the OS source delivers: 0 different bytes at every call; 1 the same bytes at every call (a constant source); 2 all zero; 3 all 0xff;
+// 4 period 2 (calls alternate between two contents)
+static int g_ent_mode = 0;
+static std::string ent_bytes(uint64_t seed, int callidx, size_t n) {
+  switch (g_ent_mode) {
+  case 1: return prbytes(seed * 1000003ULL + 1, n);
+  case 2: return std::string(n, '\0');
+  case 3: return std::string(n, '\xff');
+  case 4: return prbytes(seed * 1000003ULL + (uint64_t)(callidx & 1) * 7919ULL + 1, n);
+  default: return prbytes(seed * 1000003ULL + (uint64_t)callidx * 7919ULL + 1, n);
+  }
+}
 extern "C" int ent_cb(uint8_t *buf, size_t len) {
   int c = ES.calls++;
   ES.asked.push_back(len);
@@ -255,9 +266,13 @@ static rc::Gen<Case> gen_drbg(int tier) {
       for (int i = 0; i < rep; i++) fails.push_back(base + i);
     }
     if (!fails.empty()) c.push_back(Op("fail", fails));
+    // contents of the OS source: mostly fresh bytes at every call; sometimes constant / all-zero / all-ones / period 2
+    if (*range<int>(0, 5) == 0) c.push_back(Op("emode", {*range<int>(1, 4)}));
     // a failed call is followed by retries: duplicate some requests so the retry is visible
+    bool closes = *range<int>(0, 5) == 0;
     for (auto &r : reqs) {
       c.push_back(r);
+      if (closes && *range<int>(0, 2) == 0) c.push_back(Op("closefds"));
     }
     if (!fails.empty()) {
       int extra = *range<int>(1, 5);
@@ -274,9 +289,11 @@ static Outcome run_drbg(const Case &c) {
     exit(3);
   }
   ES = EntScript();
+  g_ent_mode = 0;
   Model M;
   for (auto &op : c) {
     if (op.k == "seed" && !op.a.empty()) ES.seed = (uint64_t)op.a[0];
+    if (op.k == "emode" && !op.a.empty()) g_ent_mode = (int)(((op.a[0] % 5) + 5) % 5);
     if (op.k == "fail")
       for (auto j : op.a)
         if (j >= 0 && j < 100000) ES.failset.insert(j);
@@ -290,6 +307,12 @@ static Outcome run_drbg(const Case &c) {
   int reqno = 0;
   for (auto &op : c) {
     int64_t len, cnt;
+    if (op.k == "closefds") {
+      // the application closes every descriptor it does not know about (daemon idiom) and opens files of its own, which get the same numbers
+      shim_app_closes_descriptors();
+      o.cls("application-closed-all-descriptors");
+      continue;
+    }
     if (op.k == "req" && op.a.size() >= 1)
       len = op.a[0], cnt = 1;
     else if (op.k == "run" && op.a.size() >= 2)
@@ -338,6 +361,10 @@ static Outcome run_drbg(const Case &c) {
       };
       if (rc != 0 && rc != -1) {
         o.fail("drbg-rc", hdf() + "crypto_entropy_read returned " + std::to_string(rc) + " (expected 0 or -1)");
+        return o;
+      }
+      if (shim_stale_descriptor_reads()) {
+        o.fail("entropy-from-foreign-descriptor", hdf() + "the generator read its 'entropy' through a descriptor which the application had closed (and whose number it had re-used for a file of its own) since the generator opened it");
         return o;
       }
       if (ES.asked != mc.asked) {
